@@ -2,7 +2,9 @@
 def register(op):
     from dsdobjects import iupac_utils as iu
     def mat(rna):
-        return "RNA" if rna else "DNA"
+        # the material name is built at run time (as one read from a file or an argument would be): an equal string, not the
+        # interned literal
+        return "".join(["R" if rna else "D", "N", "A"])
     for name in ("wc_complement", "complement", "reverse_wc_complement", "reverse_complement"):
         def f(a, name=name):
             return getattr(iu, name)(a[0], material=mat(a[1]))
